@@ -21,6 +21,7 @@ import (
 	"regexp"
 	"sort"
 	"strings"
+	"sync"
 	"time"
 
 	ocispec "github.com/opencontainers/image-spec/specs-go/v1"
@@ -59,7 +60,7 @@ func main() {
 	r.Finish(r.N(200, 2500))
 }
 
-var srcKinds = []string{"memory", "memory", "oci", "oci-reopen-rw", "oci-reopen-fs", "oci-reopen-tar", "file", "remote-api", "remote-tags"}
+var srcKinds = []string{"memory", "memory", "oci", "oci-reopen-rw", "oci-reopen-fs", "oci-reopen-tar", "file", "remote-api", "remote-api", "remote-tags", "remote-tags"}
 
 type filterSpec struct {
 	Kind  string `json:"kind"` // "", "artifactType", "annotation"
@@ -92,12 +93,20 @@ func runCase(phase string, i int) worker.Result {
 	n := 8 + rng.IntN(map[string]int{"quick": 30, "thorough": 70}[evidence.Tier()])
 	o := gen.DefaultOpts(rng, n)
 	o.Subjects = 2 + n/4
+	if remote {
+		o.Subjects = 4 + n/2 // many referrers per subject: multi-page listings
+		o.Manifests = 1 + n/8
+	}
 	o.Indexes = 1 + n/8
 	o.DupMediaType = false
 	o.AbsentSubjects = false
 	var f filterSpec
 	depth := []int{0, 0, 0, 1, 2, 3}[rng.IntN(6)]
-	switch rng.IntN(5) {
+	fsel := rng.IntN(5)
+	if remote && rng.IntN(2) == 0 {
+		fsel = 2 // annotation filters over (possibly paged) referrers listings
+	}
+	switch fsel {
 	case 0, 1:
 		f.Kind = "artifactType"
 		o.Docker = false
@@ -194,6 +203,16 @@ func runCase(phase string, i int) worker.Result {
 		p := regmodel.FullProfile()
 		p.ReferrersAPI = kind == "remote-api"
 		p.DigestHeader = rng.IntN(4) != 0
+		if p.ReferrersAPI && rng.IntN(2) == 0 {
+			// the referrers listing arrives in several pages
+			p.ReferrersPaged = true
+			p.PageSize = 1 + rng.IntN(2)
+			p.LinkStyle = rng.IntN(5)
+		}
+		if !p.ReferrersAPI {
+			// registries without the API answer 404 in various ways (never NAME_UNKNOWN: the repository exists)
+			p.Referrers404Code = []string{"", "", "MANIFEST_UNKNOWN", "UNSUPPORTED", "NOT_FOUND"}[rng.IntN(5)]
+		}
 		prof = &p
 	}
 	sh, err := stores.New(baseKind, prof)
@@ -206,7 +225,7 @@ func runCase(phase string, i int) worker.Result {
 	if !remote { // registries refuse manifests whose blobs are missing; the other stores take any order
 		rng.Shuffle(len(order), func(a, b int) { order[a], order[b] = order[b], order[a] })
 	}
-	for _, id := range order {
+	pushOne := func(id int) error {
 		nd := g.Nodes[id]
 		d := nd.Desc
 		if enriched && nd.Kind.IsManifestKind() {
@@ -216,8 +235,48 @@ func runCase(phase string, i int) worker.Result {
 			}
 		}
 		if err := sh.Target.Push(ctx, d, strings.NewReader(string(nd.Bytes))); err != nil && !errors.Is(err, errdef.ErrAlreadyExists) {
-			res.Violate("harness:populate", fmt.Sprintf("push node %d to %s: %v", id, kind, err), g.Describe(g.Roots()...))
+			return fmt.Errorf("push node %d to %s: %v", id, kind, err)
+		}
+		return nil
+	}
+	concurrentPopulation := !remote && rng.IntN(3) == 0
+	if concurrentPopulation {
+		// the source was filled by several writers at once
+		var wg sync.WaitGroup
+		var mu sync.Mutex
+		var firstErr error
+		ch := make(chan int)
+		for w, k := 0, 8+rng.IntN(17); w < k; w++ {
+			wg.Add(1)
+			go func() {
+				defer wg.Done()
+				for id := range ch {
+					if err := pushOne(id); err != nil {
+						mu.Lock()
+						if firstErr == nil {
+							firstErr = err
+						}
+						mu.Unlock()
+					}
+				}
+			}()
+		}
+		for _, id := range order {
+			ch <- id
+		}
+		close(ch)
+		wg.Wait()
+		if firstErr != nil {
+			res.Violate("harness:populate", firstErr.Error(), g.Describe(g.Roots()...))
 			return res
+		}
+		res.Count("sources_populated_concurrently", 1)
+	} else {
+		for _, id := range order {
+			if err := pushOne(id); err != nil {
+				res.Violate("harness:populate", err.Error(), g.Describe(g.Roots()...))
+				return res
+			}
 		}
 	}
 	if api == "ExtendedCopy" {
@@ -227,6 +286,16 @@ func runCase(phase string, i int) worker.Result {
 		}
 	}
 	srcTarget = sh.Target
+	if remote && rng.IntN(3) != 0 {
+		// a fresh Repository object: the referrers capability has not been detected yet
+		fresh, err := stores.RepoFor(sh.Server, "test/repo")
+		if err != nil {
+			res.Violate("harness:setup", err.Error(), nil)
+			return res
+		}
+		srcTarget = fresh
+		res.Count("fresh_repository_sources", 1)
+	}
 	switch kind {
 	case "oci-reopen-rw":
 		s, err := oci.New(sh.Dir)
@@ -330,7 +399,7 @@ func runCase(phase string, i int) worker.Result {
 		}
 	}
 	witness := func() map[string]any {
-		return map[string]any{"source": kind, "api": api, "start": start, "depth": depth, "filter": f, "enriched_descriptors": enriched, "concurrency": conc, "prepopulated": prepop, "referrers_fault_injected": faultHit,
+		return map[string]any{"source": kind, "api": api, "start": start, "depth": depth, "filter": f, "enriched_descriptors": enriched, "source_populated_concurrently": concurrentPopulation, "registry_profile": prof, "concurrency": conc, "prepopulated": prepop, "referrers_fault_injected": faultHit,
 			"dag": g.Describe(g.Roots()...), "push_order": order, "expected_exact": exact, "expected_upper": upper, "pushed": m.PushedNodes()}
 	}
 	cctx, cancel := context.WithTimeout(ctx, 4*time.Minute)
